@@ -405,7 +405,7 @@ func genC10(c *Ctx) {
 	// crafted shares: all 256 info bytes x reserved-byte values x namespaces
 	craftNs := [][]byte{share.TxNamespace.Bytes(), share.PayForBlobNamespace.Bytes(), share.PrimaryReservedPaddingNamespace.Bytes(),
 		share.TailPaddingNamespace.Bytes(), share.ParitySharesNamespace.Bytes(), nss[0]}
-	resVals := []uint32{0, 1, 37, 38, 511, 512, 1 << 16, 1<<32 - 1}
+	resVals := []uint32{0, 1, 37, 38, 511, 512, 1 << 16, 1<<16 | 38, 1<<24 | 100, 0x01000000, 1<<31 | 511, 1<<32 - 1}
 	for info := 0; info < 256; info++ {
 		for _, ns := range craftNs {
 			rv := pick(r, resVals)
@@ -780,6 +780,21 @@ func genC09(c *Ctx) {
 					txs = [][]byte{r.Bytes(lead - 1), r.Bytes(L), r.Bytes(50)}
 				}
 				c.count("prefix_width_boundary_tx_near_share_end")
+			}
+			if i%16 == 3 {
+				// the sequence fills its last share exactly and ends with one or several TINY transactions whose
+				// bytes have the high bit set (they look like cut-off length prefixes)
+				head := r.Bytes(1 + r.Intn(300))
+				tiny := 1 + (i/16)%8
+				k := (i / 128) % 3
+				pre := len(refDelimited(head)) + (1 + tiny)
+				mid := alignedTxLen(pre, 474+478*k-pre-2, 0)
+				last := bytes.Repeat([]byte{0x80 | byte(i)}, tiny)
+				txs = [][]byte{head, r.Bytes(mid), last}
+				if (i/16)%2 == 1 {
+					txs = [][]byte{head, r.Bytes(mid - 2), {0xff}, last}
+				}
+				c.count("exact_fill_tiny_high_bit_last_tx")
 			}
 			if i%16 == 7 {
 				// the sequence fills its last share exactly and that share holds nothing but ZERO bytes of the
